@@ -13,7 +13,7 @@ import traceback
 from . import tlc as tlcmod
 
 VERIF = tlcmod.VERIF
-EVID = os.path.join(VERIF, "evidence")
+EVID = os.environ.get("VF_EVIDENCE_DIR") or os.path.join(VERIF, "evidence")   # VF_EVIDENCE_DIR: development / mutant runs only
 REPLAYS = os.path.join(EVID, "replays")
 FINDINGS = os.path.join(VERIF, "known_findings.json")
 
